@@ -321,30 +321,31 @@ Print Assumptions C14_spec_rename_fragments_and_variables.
 (* ---- (e) wrapping in untyped inline fragments: [wrap_doc d d'] = d' is d with contiguous NON-EMPTY parts of
    selection lists wrapped in `... { }` (inline fragment without type condition and without directives), anywhere
    (operations, fragment definitions, fields, inline fragments), any number of times, also nested
-   ([wlist] / [wsel], C14_wrap_proofs.v).  Every rule except FieldsOnCorrectType is invariant. *)
+   ([wlist] / [wsel], C14_wrap_proofs.v).  Every rule is invariant, all 24 of them. *)
 Theorem C14_spec_wrap : forall r s d d',
-  wrap_doc d d' -> r <> R_FieldsOnCorrectType -> violated r s d = violated r s d'.
+  wrap_doc d d' -> violated r s d = violated r s d'.
 Proof. exact violated_wrap. Qed.
 Print Assumptions C14_spec_wrap.
 
 (* FieldsOnCorrectType = [fields_undefined s d || subscription_typename d] (definitionally): its clause about the
-   fields is invariant, its clause "a __typename directly at a subscription root" can only get lost *)
+   fields is invariant, and so is its clause "a __typename at a subscription root", which looks through inline
+   fragments without a type condition ([root_typename_fields], SpecRules.v) *)
 Theorem C14_spec_wrap_fields_on_correct_type : forall s d d', wrap_doc d d' ->
-  (violated R_FieldsOnCorrectType s d' = true -> violated R_FieldsOnCorrectType s d = true) /\
-  (subscription_typename d = false -> violated R_FieldsOnCorrectType s d = violated R_FieldsOnCorrectType s d').
+  fields_undefined s d = fields_undefined s d' /\
+  subscription_typename d = subscription_typename d' /\
+  violated R_FieldsOnCorrectType s d = violated R_FieldsOnCorrectType s d'.
 Proof. exact violated_wrap_fields_on_correct_type. Qed.
 Print Assumptions C14_spec_wrap_fields_on_correct_type.
 
-(* accept / reject: invariant when the schema has a subscription root type (then SingleFieldSubscriptions rejects
-   a __typename at a subscription root, wrapped or not) or no subscription of d selects __typename directly *)
+(* accept / reject is invariant, whatever the schema *)
 Theorem C14_spec_valid_wrap : forall s d d', wrap_doc d d' ->
-  (subscription_typename d = true -> is_some (root s OpSubscription) = true) ->
   spec_valid s d = spec_valid s d'.
 Proof. exact spec_valid_wrap. Qed.
 Print Assumptions C14_spec_valid_wrap.
 
+(* the model: every rule with a per-rule equivalence (the merge rule has its own theorems) *)
 Theorem C14_model_wrap : forall r s d d',
-  r <> R_OverlappingFieldsCanBeMerged -> r <> R_FieldsOnCorrectType ->
+  r <> R_OverlappingFieldsCanBeMerged ->
   wf_schema s = true -> doc_types_proper d = true -> defaults_const d = true ->
   distinct_fragments d = true -> rule_in_scope r s d = true ->
   wrap_doc d d' ->
@@ -352,25 +353,38 @@ Theorem C14_model_wrap : forall r s d d',
 Proof. exact run_alone_wrap. Qed.
 Print Assumptions C14_model_wrap.
 
-(* the exclusions are needed *)
-Theorem C14_wrap_fields_on_correct_type_cex :
+(* the documents that used to separate FieldsOnCorrectType (the rule saw a __typename at a subscription root only
+   when it was a direct child):  subscription S { __typename }  and  subscription S { ... { __typename } }  now get
+   the same verdict, from the specification and from the model ... *)
+Theorem C14_wrap_fields_on_correct_type_example :
   wf_schema wx_schema_sub = true /\
   wrap_doc (wx_sub [cx_field "__typename"]) (wx_sub [wx_wrap [cx_field "__typename"]]) /\
   violated R_FieldsOnCorrectType wx_schema_sub (wx_sub [cx_field "__typename"]) = true /\
-  violated R_FieldsOnCorrectType wx_schema_sub (wx_sub [wx_wrap [cx_field "__typename"]]) = false /\
+  violated R_FieldsOnCorrectType wx_schema_sub (wx_sub [wx_wrap [cx_field "__typename"]]) = true /\
+  run_alone R_FieldsOnCorrectType wx_schema_sub (wx_sub [cx_field "__typename"]) =
+    [err R_FieldsOnCorrectType [cx_z]] /\
+  run_alone R_FieldsOnCorrectType wx_schema_sub (wx_sub [wx_wrap [cx_field "__typename"]]) =
+    [err R_FieldsOnCorrectType [cx_z]] /\
   spec_valid wx_schema_sub (wx_sub [cx_field "__typename"]) = false /\
   spec_valid wx_schema_sub (wx_sub [wx_wrap [cx_field "__typename"]]) = false.
-Proof. exact wrap_fields_on_correct_type_cex. Qed.
-Print Assumptions C14_wrap_fields_on_correct_type_cex.
+Proof. exact wrap_fields_on_correct_type_example. Qed.
+Print Assumptions C14_wrap_fields_on_correct_type_example.
 
-Theorem C14_wrap_spec_valid_cex :
+(* ... also where the schema has no subscription root type, where accept / reject used to change *)
+Theorem C14_wrap_spec_valid_example :
   wf_schema cx_schema = true /\
+  root cx_schema OpSubscription = None /\
   wrap_doc (wx_sub [cx_field "__typename"]) (wx_sub [wx_wrap [cx_field "__typename"]]) /\
   spec_valid cx_schema (wx_sub [cx_field "__typename"]) = false /\
-  spec_valid cx_schema (wx_sub [wx_wrap [cx_field "__typename"]]) = true.
-Proof. exact wrap_spec_valid_cex. Qed.
-Print Assumptions C14_wrap_spec_valid_cex.
+  spec_valid cx_schema (wx_sub [wx_wrap [cx_field "__typename"]]) = false /\
+  run_alone R_FieldsOnCorrectType cx_schema (wx_sub [cx_field "__typename"]) =
+    [err R_FieldsOnCorrectType [cx_z]] /\
+  run_alone R_FieldsOnCorrectType cx_schema (wx_sub [wx_wrap [cx_field "__typename"]]) =
+    [err R_FieldsOnCorrectType [cx_z]].
+Proof. exact wrap_spec_valid_example. Qed.
+Print Assumptions C14_wrap_spec_valid_example.
 
+(* the restriction to NON-EMPTY parts is needed: wrapping nothing gives a leaf field a selection set *)
 Theorem C14_wrap_empty_cex :
   violated R_LeafFieldSelections cx_schema
            [DOp (mkOperation OpQuery cx_z (Some "Q") [] [] (cx_z, cx_z) [cx_field "a"])] = false /\
